@@ -1,11 +1,397 @@
 /-
-  C16 — property theorems only (placeholder until the refinement proof lands).
--/
-import JSV.Model.Validate
-namespace JSV.C16
-open JSV Go
+  C16 — `For` is deterministic and isolating.  Property theorems only
+  (helper lemmas: JSV/Proofs/InfStore.lean, InfStruct.lean, InfEqns.lean; the encoding/json side of the
+  statements — JSON names, always-written names — is JSV/Spec/EncJson.lean).
 
-theorem validateFuel_zero (env : VEnv) (stack : List NodeId) (i : GoVal) (s : NodeId) :
-    validateFuel env 0 stack i s = .fuel := rfl
+  `Go.forType opts fuel T st` is the model of `ForType`: every `new(Schema)` and every `CloneSchemas`
+  allocates in the store `st`; the result is the id of the schema and the new store.
+  `opts.schemas` is the type table (initial entries and `ForOptions.TypeSchemas`), whose schemas live in `st`.
+-/
+import JSV.Proofs.InfEqns
+namespace JSV.C16
+open JSV Go EncJson
+
+/-! ## determinism -/
+
+/-- the result is a function of `(opts, fuel, T, st)`: there is no other input (no map iteration, no
+    global state; the GODEBUG setting is the field `opts.nullForSlices`) -/
+theorem forType_deterministic (opts : IOpts) (fuel : Nat) (T : GoType) (st : Store)
+    (r₁ r₂ : Res (Option NodeId × Store))
+    (h₁ : forType opts fuel T st = r₁) (h₂ : forType opts fuel T st = r₂) : r₁ = r₂ :=
+  h₁.symm.trans h₂
+
+/-! ## isolation -/
+
+/-- nothing that exists is modified: the type table (`TypeSchemas`) and every earlier result are untouched -/
+theorem forType_store_extends (opts : IOpts) (fuel : Nat) (T : GoType) (st : Store) (r : Option NodeId) (st' : Store)
+    (h : forType opts fuel T st = .ok (r, st')) :
+    st.size ≤ st'.size ∧ ∀ i, i < st.size → st'.get? i = st.get? i :=
+  (inferFuel_inv opts fuel _ _ _ _ _ h).1
+
+/-- the result is fresh: its root is a new `*Schema` and so is every `*Schema` reachable from it; no Schema
+    object is shared with an earlier result or with the type table (table entries are cloned) -/
+theorem forType_fresh (opts : IOpts) (fuel : Nat) (T : GoType) (st : Store) (id : NodeId) (st' : Store)
+    (h : forType opts fuel T st = .ok (some id, st')) :
+    st.size ≤ id ∧ ∀ b, Go.Reach st' id b → st.size ≤ b ∧ st.get? b = none := by
+  obtain ⟨_, hid, hf⟩ := inferFuel_inv opts fuel _ _ _ _ _ h
+  have hf0 : FreshAbove st.size st := by
+    intro i n hi hn
+    exact absurd (lt_size_of_get? hn) (Nat.not_lt_of_le hi)
+  have hf' := hf st.size (Nat.le_refl _) hf0
+  refine ⟨(hid id rfl).1, fun b hb => ?_⟩
+  have hb' := Reach.fresh hf' hb (hid id rfl).1
+  exact ⟨hb', get?_eq_none_iff.2 hb'⟩
+
+/-- the same for the model's own traversal `Go.reachable` -/
+theorem forType_fresh_reachable (opts : IOpts) (fuel : Nat) (T : GoType) (st : Store) (id : NodeId) (st' : Store)
+    (h : forType opts fuel T st = .ok (some id, st')) (f : Nat) :
+    ∀ b, b ∈ Go.reachable st' f [id] → st.size ≤ b ∧ st.get? b = none := by
+  intro b hb
+  obtain ⟨a, ha, hr⟩ := reachable_sound st' f [id] b hb
+  cases List.mem_singleton.1 ha
+  exact (forType_fresh opts fuel T st id st' h).2 b hr
+
+/-- in particular no schema of the type table is part of the result -/
+theorem forType_disjoint_from_table (opts : IOpts) (fuel : Nat) (T : GoType) (st : Store) (id : NodeId) (st' : Store)
+    (h : forType opts fuel T st = .ok (some id, st')) (nm : String) (sid : NodeId) (n : Node)
+    (_hs : Json.lookup nm opts.schemas = some sid) (hn : st.get? sid = some n) :
+    ¬ Go.Reach st' id sid := by
+  intro hr
+  have := ((forType_fresh opts fuel T st id st' h).2 sid hr).2
+  rw [hn] at this
+  cases this
+
+/-- two successive calls give disjoint results: no node of the second result existed when the first call
+    returned (so none is a node of the first result), the first result's nodes are unchanged -/
+theorem forType_twice_disjoint (opts₁ opts₂ : IOpts) (f₁ f₂ : Nat) (T₁ T₂ : GoType) (st : Store)
+    (id₁ id₂ : NodeId) (st₁ st₂ : Store)
+    (h₁ : forType opts₁ f₁ T₁ st = .ok (some id₁, st₁)) (h₂ : forType opts₂ f₂ T₂ st₁ = .ok (some id₂, st₂)) :
+    id₁ < id₂ ∧ (∀ b, Go.Reach st₂ id₂ b → st₁.get? b = none) ∧ ∀ i, i < st₁.size → st₂.get? i = st₁.get? i := by
+  obtain ⟨_, hid, _⟩ := inferFuel_inv opts₁ f₁ _ _ _ _ _ h₁
+  have h2 := forType_fresh _ _ _ _ _ _ h₂
+  exact ⟨Nat.lt_of_lt_of_le (hid id₁ rfl).2 h2.1, fun b hb => (h2.2 b hb).2, (forType_store_extends _ _ _ _ _ _ h₂).2⟩
+
+
+/-! ## pointers and slices add `null` -/
+
+/-- `if allowNull && s.Type != "" { s.Types = ["null", s.Type]; s.Type = "" }` -/
+theorem pointer_adds_null (n : Node) (h : n.type ≠ "") :
+    addNull true n = { n with types := some ["null", n.type], type := "" } := by
+  unfold addNull
+  simp [h]
+
+/-- no `null` without a pointer -/
+theorem no_pointer_no_null (n : Node) : addNull false n = n := addNull_false n
+
+/-- … for a pointer to a basic kind with a type keyword: the schema is the kind's schema with
+    `types = ["null", t]` -/
+theorem pointer_adds_null_basic (opts : IOpts) (fuel : Nat) (kind ty : String) (mn mx : Option Int) (st : Store)
+    (hk : kindEntry kind = some (ty, mn, mx)) (hty : ty ≠ "") :
+    forType opts (fuel + 1) (.ptr (.basic kind)) st =
+      .ok (some st.size, st.push { basicNode ty mn mx with types := some ["null", ty], type := "" }) := by
+  show inferStep opts (inferFuel opts fuel) (.ptr (.basic kind)) [] st = _
+  rw [inferStep_basic (kind := kind) (an := true) rfl, hk]
+  simp only
+  rw [pointer_adds_null _ (by exact hty)]
+  rfl
+
+/-- `**T` is treated as `*T` -/
+theorem pointer_depth_irrelevant (opts : IOpts) (fuel : Nat) (T : GoType) (st : Store) :
+    forType opts fuel (.ptr (.ptr T)) st = forType opts fuel (.ptr T) st := by
+  cases fuel with
+  | zero => rfl
+  | succ fuel => rfl
+
+/-- slices get `["null","array"]` unless the GODEBUG setting says otherwise -/
+theorem slice_adds_null (opts : IOpts) (fuel : Nat) (e : GoType) (st : Store) (id : NodeId) (st' : Store)
+    (h : forType opts (fuel + 1) (.slice e) st = .ok (some id, st')) :
+    ∃ eid, st'.get? id = some (if opts.nullForSlices then { types := some ["null", "array"], items := some eid }
+                               else { type := "array", items := some eid }) := by
+  change inferStep opts (inferFuel opts fuel) (.slice e) [] st = _ at h
+  rw [inferStep_slice (e := e) (an := false) rfl] at h
+  obtain ⟨⟨es, st1⟩, _, h⟩ := Res.bind_eq_ok h
+  cases es with
+  | none => cases h
+  | some eid =>
+    cases h
+    exact ⟨eid, by rw [addNull_false]; exact get?_push_size _ _⟩
+
+/-! ## structs: `required`, `propertyOrder`, `properties` -/
+
+/-- the struct-field loop: `propertyOrder` receives the JSON names of the fields that are not `json:"-"`, in
+    declaration order; `required` those among them whose tag has neither omitempty nor omitzero; the keys
+    of `properties` are these names.  (`NeverDrops`: no field is skipped for an invalid type, which is the
+    case without IgnoreInvalidTypes.) -/
+theorem structLoop_spec (rec : IRec) (seen : List String) (fields : List (String × String × GoType))
+    (n : Node) (st : Store) (n' : Node) (st' : Store)
+    (hnd : NeverDrops rec seen fields) (h : structLoop rec seen fields n st = .ok (n', st')) :
+    n'.propertyOrder.getD [] = n.propertyOrder.getD [] ++ jsonNames fields ∧
+    n'.required.getD [] = n.required.getD [] ++ alwaysNames fields ∧
+    ∀ k, k ∈ (n'.properties.getD []).map (·.1) ↔ (k ∈ (n.properties.getD []).map (·.1) ∨ k ∈ jsonNames fields) :=
+  structLoop_lists fields hnd h
+
+/-- the schema of a struct type -/
+theorem struct_schema (opts : IOpts) (fuel : Nat) (fields : List (String × String × GoType)) (st : Store)
+    (id : NodeId) (st' : Store) (hi : opts.ignore = false)
+    (h : forType opts (fuel + 1) (.struct fields) st = .ok (some id, st')) :
+    ∃ n, st'.get? id = some n ∧ n.type = "object" ∧
+      n.required.getD [] = alwaysNames fields ∧
+      (∀ k, k ∈ (n.properties.getD []).map (·.1) ↔ k ∈ jsonNames fields) ∧
+      (nodup (jsonNames fields) = true → n.propertyOrder.getD [] = jsonNames fields) := by
+  change inferStep opts (inferFuel opts fuel) (.struct fields) [] st = _ at h
+  obtain ⟨n, st1, hl, hr, rfl⟩ := inferStep_struct_ok (t0 := .struct fields) (fields := fields) (an := false) rfl h
+  cases hr
+  have hnd : NeverDrops (inferFuel opts fuel) [] fields :=
+    fun f _ _ s s1 hf => inferFuel_never_none hi fuel _ _ _ _ hf
+  obtain ⟨h1, h2, h3⟩ := structLoop_lists fields hnd hl
+  refine ⟨_, get?_push_size _ _, ?_, ?_, ?_, ?_⟩
+  · rw [addNull_false, finalOrder_type, coreOf_type (structLoop_core fields hl)]
+    rfl
+  · rw [addNull_false, finalOrder_required, h2]
+    rfl
+  · intro k
+    rw [addNull_false, finalOrder_properties, h3]
+    simp [structNode0]
+  · intro hnd
+    have h1' : n.propertyOrder.getD [] = jsonNames fields := by rw [h1]; rfl
+    rw [addNull_false, finalOrder_order_of_nodup n (by rw [h1']; exact hnd), h1']
+
+/-- a field's JSON name is required iff its tag has neither omitempty nor omitzero (distinct JSON names) -/
+theorem required_iff_not_omit (opts : IOpts) (fuel : Nat) (fields : List (String × String × GoType)) (st : Store)
+    (id : NodeId) (st' : Store) (hi : opts.ignore = false) (hd : nodup (jsonNames fields) = true)
+    (h : forType opts (fuel + 1) (.struct fields) st = .ok (some id, st'))
+    (f : String × String × GoType) (hf : f ∈ fields) (ho : (fieldJSONInfo f.1 f.2.1).omitted = false) :
+    ∃ n, st'.get? id = some n ∧
+      ((fieldJSONInfo f.1 f.2.1).name ∈ n.required.getD [] ↔
+        ((fieldJSONInfo f.1 f.2.1).omitempty = false ∧ (fieldJSONInfo f.1 f.2.1).omitzero = false)) := by
+  obtain ⟨n, hn, _, hr, _⟩ := struct_schema opts fuel fields st id st' hi h
+  exact ⟨n, hn, by rw [hr]; exact mem_alwaysNames_iff hd hf ho⟩
+
+/-- for distinct JSON names `propertyOrder` is the list of JSON names of the non-omitted fields in
+    declaration order, and the keys of `properties` are the same names -/
+theorem propertyOrder_is_field_order (opts : IOpts) (fuel : Nat) (fields : List (String × String × GoType))
+    (st : Store) (id : NodeId) (st' : Store) (hi : opts.ignore = false) (hd : nodup (jsonNames fields) = true)
+    (h : forType opts (fuel + 1) (.struct fields) st = .ok (some id, st')) :
+    ∃ n, st'.get? id = some n ∧ n.propertyOrder.getD [] = jsonNames fields ∧
+      ∀ k, k ∈ (n.properties.getD []).map (·.1) ↔ k ∈ jsonNames fields := by
+  obtain ⟨n, hn, _, _, hp, hpo⟩ := struct_schema opts fuel fields st id st' hi h
+  exact ⟨n, hn, hpo hd, hp⟩
+
+/-! ## recursive types, invalid kinds -/
+
+/-- the cycle check: a named type that is being expanded is an error -/
+theorem recursive_type_errors (opts : IOpts) (rec : IRec) (nm : String) (u : GoType) (seen : List String) (st : Store)
+    (h : seen.contains nm = true) :
+    inferStep opts rec (.named nm u) seen st = .err ∧ inferStep opts rec (.ref nm) seen st = .err ∧
+    inferStep opts rec (.ptr (.named nm u)) seen st = .err ∧ inferStep opts rec (.ptr (.ref nm)) seen st = .err :=
+  ⟨inferStep_seen (t := .named nm u) (an := false) rfl rfl h, inferStep_seen (t := .ref nm) (an := false) rfl rfl h,
+   inferStep_seen (t := .named nm u) (an := true) rfl rfl h, inferStep_seen (t := .ref nm) (an := true) rfl rfl h⟩
+
+/-- `type T []T` (not in the type table) is an error -/
+theorem recursive_slice_errors (opts : IOpts) (fuel : Nat) (nm : String) (st : Store)
+    (hs : Json.lookup nm opts.schemas = none) :
+    forType opts (fuel + 2) (.named nm (.slice (.ref nm))) st = .err ∧
+    forType opts (fuel + 2) (.named nm (.slice (.ptr (.ref nm)))) st = .err := by
+  constructor
+  · show inferStep opts (inferFuel opts (fuel + 1)) (.named nm (.slice (.ref nm))) [] st = _
+    rw [inferStep_named_slice (nm := nm) (e := .ref nm) (an := false) rfl rfl hs]
+    show Res.bind (inferStep opts (inferFuel opts fuel) (.ref nm) [nm] st) _ = _
+    rw [inferStep_seen (t := .ref nm) (nm := nm) (an := false) rfl rfl (by simp)]
+    rfl
+  · show inferStep opts (inferFuel opts (fuel + 1)) (.named nm (.slice (.ptr (.ref nm)))) [] st = _
+    rw [inferStep_named_slice (nm := nm) (e := .ptr (.ref nm)) (an := false) rfl rfl hs]
+    show Res.bind (inferStep opts (inferFuel opts fuel) (.ptr (.ref nm)) [nm] st) _ = _
+    rw [inferStep_seen (t := .ref nm) (nm := nm) (an := true) rfl rfl (by simp)]
+    rfl
+
+/-- `type T struct { F *T; … }` (not in the type table, `F` not `json:"-"`) is an error -/
+theorem recursive_struct_errors (opts : IOpts) (fuel : Nat) (nm goName tag : String)
+    (rest : List (String × String × GoType)) (st : Store)
+    (hs : Json.lookup nm opts.schemas = none) (ho : (fieldJSONInfo goName tag).omitted = false) :
+    forType opts (fuel + 2) (.named nm (.struct ((goName, tag, .ptr (.ref nm)) :: rest))) st = .err ∧
+    forType opts (fuel + 2) (.ptr (.named nm (.struct ((goName, tag, .ptr (.ref nm)) :: rest)))) st = .err := by
+  have key : ∀ s n, structLoop (inferFuel opts (fuel + 1)) [nm] ((goName, tag, .ptr (.ref nm)) :: rest) n s = .err := by
+    intro s n
+    simp only [structLoop, ho, Bool.false_eq_true, if_false]
+    show Res.bind (inferStep opts (inferFuel opts fuel) (.ptr (.ref nm)) [nm] s) _ = _
+    rw [inferStep_seen (t := .ref nm) (nm := nm) (an := true) rfl rfl (by simp)]
+    rfl
+  constructor
+  · show inferStep opts (inferFuel opts (fuel + 1)) (.named nm (.struct _)) [] st = _
+    rw [inferStep_named_struct (nm := nm) (an := false) rfl rfl hs, key]
+    rfl
+  · show inferStep opts (inferFuel opts (fuel + 1)) (.ptr (.named nm (.struct _))) [] st = _
+    rw [inferStep_named_struct (nm := nm) (an := true) rfl rfl hs, key]
+    rfl
+
+/-- a kind without a table entry (func, chan, complex, …): an error, or dropped with IgnoreInvalidTypes -/
+theorem invalid_kind_errors_or_dropped (opts : IOpts) (fuel : Nat) (kind : String) (st : Store)
+    (hk : kindEntry kind = none) :
+    forType opts (fuel + 1) (.basic kind) st = (if opts.ignore then .ok (none, st) else .err) ∧
+    forType opts (fuel + 1) (.ptr (.basic kind)) st = (if opts.ignore then .ok (none, st) else .err) := by
+  constructor
+  · show inferStep opts (inferFuel opts fuel) (.basic kind) [] st = _
+    rw [inferStep_basic (kind := kind) (an := false) rfl, hk]
+  · show inferStep opts (inferFuel opts fuel) (.ptr (.basic kind)) [] st = _
+    rw [inferStep_basic (kind := kind) (an := true) rfl, hk]
+
+/-- … which is the case of these kinds -/
+theorem invalid_kinds :
+    kindEntry "Func" = none ∧ kindEntry "Chan" = none ∧ kindEntry "Complex64" = none ∧
+    kindEntry "Complex128" = none ∧ kindEntry "UnsafePointer" = none ∧ kindEntry "Invalid" = none := by
+  decide
+
+/-- a map whose key kind is not string likewise -/
+theorem invalid_map_key_errors_or_dropped (opts : IOpts) (fuel : Nat) (keyKind : String) (e : GoType) (st : Store)
+    (hk : keyKind ≠ "String") :
+    forType opts (fuel + 1) (.map keyKind e) st = (if opts.ignore then .ok (none, st) else .err) := by
+  show inferStep opts (inferFuel opts fuel) (.map keyKind e) [] st = _
+  rw [inferStep_map (keyKind := keyKind) (e := e) (an := false) rfl]
+  simp [hk]
+
+/-- a struct field of invalid type is skipped with IgnoreInvalidTypes (and an error without) -/
+theorem invalid_field_dropped (rec : IRec) (seen : List String) (goName tag : String) (ft : GoType)
+    (rest : List (String × String × GoType)) (n : Node) (st st1 : Store)
+    (ho : (fieldJSONInfo goName tag).omitted = false) (hr : rec ft seen st = .ok (none, st1)) :
+    structLoop rec seen ((goName, tag, ft) :: rest) n st = structLoop rec seen rest (ensureProps n) st1 := by
+  simp only [structLoop, ho, Bool.false_eq_true, if_false, hr, Res.bind_ok]
+  rfl
+
+/-! ## the type table -/
+
+/-- a named type with an entry in the type table yields a clone of the entry, whatever its underlying
+    type; for a pointer to it `null` is added to the clone (never to the entry) -/
+theorem typeTable_substituted (opts : IOpts) (fuel : Nat) (nm : String) (u : GoType) (seen : List String) (st : Store)
+    (sid : NodeId) (hs : Json.lookup nm opts.schemas = some sid) (hseen : seen.contains nm = false) :
+    inferFuel opts (fuel + 1) (.named nm u) seen st =
+      (Res.bind (clone st sid) fun r =>
+        match r.2.get? r.1 with
+        | none => .panic
+        | some cn => .ok (some r.1, r.2.set! r.1 cn)) ∧
+    inferFuel opts (fuel + 1) (.ptr (.named nm u)) seen st =
+      (Res.bind (clone st sid) fun r =>
+        match r.2.get? r.1 with
+        | none => .panic
+        | some cn => .ok (some r.1, r.2.set! r.1 (tableNull opts.nullForSlices cn))) := by
+  constructor
+  · show inferStep opts (inferFuel opts fuel) (.named nm u) seen st = _
+    rw [inferStep_table (t := .named nm u) (an := false) rfl rfl hseen hs]
+    simp only [Bool.and_false]
+    rfl
+  · show inferStep opts (inferFuel opts fuel) (.ptr (.named nm u)) seen st = _
+    rw [inferStep_table (t := .named nm u) (an := true) rfl rfl hseen hs]
+    simp only [Bool.and_true]
+    rfl
+
+/-- … hence independent of the underlying structure -/
+theorem typeTable_ignores_structure (opts : IOpts) (fuel : Nat) (nm : String) (u u' : GoType) (seen : List String)
+    (st : Store) (sid : NodeId) (hs : Json.lookup nm opts.schemas = some sid) (hseen : seen.contains nm = false) :
+    inferFuel opts (fuel + 1) (.named nm u) seen st = inferFuel opts (fuel + 1) (.named nm u') seen st := by
+  rw [(typeTable_substituted opts fuel nm u seen st sid hs hseen).1,
+      (typeTable_substituted opts fuel nm u' seen st sid hs hseen).1]
+
+/-- … and the clone is fresh: its root is a new id, the entry itself is unchanged -/
+theorem typeTable_clone_fresh (opts : IOpts) (fuel : Nat) (nm : String) (u : GoType) (st : Store)
+    (sid : NodeId) (hs : Json.lookup nm opts.schemas = some sid) (id : NodeId) (st' : Store)
+    (h : forType opts (fuel + 1) (.named nm u) st = .ok (some id, st')) :
+    ∃ stc cn, clone st sid = .ok (id, stc) ∧ stc.get? id = some cn ∧ st'.get? id = some cn ∧
+      st.size ≤ id ∧ st'.get? sid = st.get? sid := by
+  have hext := forType_store_extends _ _ _ _ _ _ h
+  have hfr := forType_fresh _ _ _ _ _ _ h
+  change inferFuel opts (fuel + 1) (.named nm u) [] st = _ at h
+  rw [(typeTable_substituted opts fuel nm u [] st sid hs rfl).1] at h
+  obtain ⟨⟨cid, stc⟩, hc, h⟩ := Res.bind_eq_ok h
+  simp only at h
+  split at h
+  · cases h
+  · rename_i cn hcn
+    cases h
+    refine ⟨stc, cn, hc, hcn, get?_set!_self _ (lt_size_of_get? hcn), hfr.1, ?_⟩
+    by_cases hlt : sid < st.size
+    · exact hext.2 sid hlt
+    · -- a nil entry: clone returns it unchanged, and it is no node
+      have hnone : st.get? sid = none := get?_eq_none_iff.2 (Nat.le_of_not_lt hlt)
+      have := cloneStep_none (rec := cloneFuel (st.size + 1)) hnone
+      have hc' : clone st sid = .ok (sid, st) := this
+      rw [hc'] at hc
+      cases hc
+      rw [hnone] at hcn
+      cases hcn
+
+/-! ## the tag parser -/
+
+/-- no `json` key in the tag: the Go field name, nothing omitted -/
+theorem fieldJSONInfo_no_tag (goName tag : String) (h : tagLookup "json" tag = none) :
+    (fieldJSONInfo goName tag).name = goName ∧ (fieldJSONInfo goName tag).omitted = false ∧
+    (fieldJSONInfo goName tag).omitempty = false ∧ (fieldJSONInfo goName tag).omitzero = false := by
+  unfold fieldJSONInfo
+  rw [h]
+  exact ⟨rfl, rfl, rfl, rfl⟩
+
+/-- `json:"-"` : omitted -/
+theorem fieldJSONInfo_dash (goName tag t : String) (h : tagLookup "json" tag = some t) (hp : t.splitOn "," = ["-"]) :
+    (fieldJSONInfo goName tag).omitted = true := by
+  unfold fieldJSONInfo
+  rw [h]
+  simp [hp]
+
+/-- `json:"-,"` : the field is named "-" -/
+theorem fieldJSONInfo_dash_comma (goName tag t : String) (h : tagLookup "json" tag = some t)
+    (hp : t.splitOn "," = ["-", ""]) :
+    (fieldJSONInfo goName tag).name = "-" ∧ (fieldJSONInfo goName tag).omitted = false ∧
+    (fieldJSONInfo goName tag).omitempty = false ∧ (fieldJSONInfo goName tag).omitzero = false := by
+  unfold fieldJSONInfo
+  rw [h]
+  simp [hp]
+
+/-- `json:"n"`, `json:"n,omitempty"`, `json:"n,omitzero"`, `json:"n,omitempty,omitzero"`, … -/
+theorem fieldJSONInfo_named (goName tag t nm : String) (opts : List String) (h : tagLookup "json" tag = some t)
+    (hp : t.splitOn "," = nm :: opts) (hn : nm ≠ "") (hd : nm ≠ "-") :
+    (fieldJSONInfo goName tag).name = nm ∧ (fieldJSONInfo goName tag).omitted = false ∧
+    (fieldJSONInfo goName tag).omitempty = opts.contains "omitempty" ∧
+    (fieldJSONInfo goName tag).omitzero = opts.contains "omitzero" := by
+  unfold fieldJSONInfo
+  rw [h]
+  simp [hp, hn, hd]
+
+/-- `json:",omitempty"` : the Go field name with the options -/
+theorem fieldJSONInfo_unnamed (goName tag t : String) (opts : List String) (h : tagLookup "json" tag = some t)
+    (hp : t.splitOn "," = "" :: opts) :
+    (fieldJSONInfo goName tag).name = goName ∧ (fieldJSONInfo goName tag).omitted = false ∧
+    (fieldJSONInfo goName tag).omitempty = opts.contains "omitempty" ∧
+    (fieldJSONInfo goName tag).omitzero = opts.contains "omitzero" := by
+  unfold fieldJSONInfo
+  rw [h]
+  simp [hp]
+
+
+/-! ## The hypotheses are satisfiable on non-trivial data (labelled tests) -/
+
+/-- `*[]int8`: two fresh nodes, the root is the last one; `null` comes from the slice rule -/
+example : (match forType {} 3 (.ptr (.slice (.basic "Int8"))) #[] with
+    | .ok (some id, st') => (id, st'.size) | _ => (0, 0)) = (1, 2) := by decide
+
+example : (match forType {} 3 (.ptr (.slice (.basic "Int8"))) #[] with
+    | .ok (some id, st') => (st'.get? id).map (·.types) | _ => none) = some (some ["null", "array"]) := by decide
+
+/-- `*string`: `types = ["null","string"]` (an instance of `pointer_adds_null_basic`) -/
+example : (match forType {} 2 (.ptr (.basic "String")) #[] with
+    | .ok (some id, st') => (st'.get? id).map (fun n => (n.type, n.types)) | _ => none)
+      = some ("", some ["null", "string"]) := by decide
+
+/-- `func()` : an error, or dropped -/
+example : forType {} 3 (.basic "Func") #[] = .err := by rfl
+example : (forType { ignore := true } 3 (.slice (.basic "Chan")) #[]).isOk = true := by decide
+
+/-- the type table: `time.Time` ↦ schema 0; the result is the clone 1, whatever the struct looks like, and
+    schema 0 is still there (`typeTable_substituted`, `typeTable_clone_fresh`) -/
+example : (match forType { schemas := [("time.Time", 0)] } 2
+      (.named "time.Time" (.struct [("wall", "", .basic "Uint64")])) #[{ type := "string", format := "date-time" }] with
+    | .ok (some id, st') => (id, st'.size, (st'.get? id).map (·.format), (st'.get? 0).map (·.format))
+    | _ => (0, 0, none, none)) = (1, 2, some "date-time", some "date-time") := by decide
+
+/-- `type L []L` -/
+example : forType {} 5 (.named "L" (.slice (.ref "L"))) #[] = .err :=
+  (recursive_slice_errors {} 3 "L" #[] rfl).1
 
 end JSV.C16
